@@ -40,7 +40,7 @@ def norm_inv(msg):
         head = 'dynamic template'
     tail = msg.rsplit(': ', 1)[-1] if ': ' in msg else msg
     tail = re.sub(r'#?\d+', 'N', tail)
-    tail = re.sub(r'(location|branchpoint|parameter|edge) [A-Za-z_][A-Za-z_0-9]*', r'\1 X', tail)
+    tail = re.sub(r'(location|branchpoint|parameter|edge) [A-Za-z_][A-Za-z_0-9$#]*', r'\1 X', tail)
     return '%s: %s' % (head, tail)
 
 
@@ -48,7 +48,7 @@ def verdict_of(resp):
     """-> list of (descriptor, what) for every step with a failing invariant (crashes are C01's subject: counted only)"""
     out = []
     for i, s in enumerate(resp.get('steps', [])):
-        for msg in (s.get('inv') or [])[:1]:
+        for msg in ((s.get('inv') or []) + ['after queries: ' + x for x in (s.get('inv_after') or [])])[:1]:
             out.append(({'inv': norm_inv(msg), 'after': 'exception' if s.get('exc') else ('errors' if s.get('n_errors') else 'clean')},
                         'step %d: %s (ret=%r exc=%r errors=%r)' % (i, msg, s.get('ret'), (s.get('exc') or {}).get('class'), s.get('n_errors'))))
     return out
@@ -266,6 +266,22 @@ def mutate(m, mut, rnd):
     return xml, xta, applied
 
 
+def member_queries(m):
+    """queries that reach into every listed process: P.v, and T(0, ..).v for process sets with free parameters (typed against the built document)"""
+    qs = []
+    for n in [x for grp in m.system for x in grp]:
+        info = m.done[n]
+        p = n + ('(%s)' % ', '.join(['0'] * info['unbound']) if info['unbound'] else '')
+        t = [t for t in m.templates if t.name == info['template']][0]
+        for d in t.decls:
+            for v in d.vars:
+                qs.append('E<> %s.%s == %s.%s' % (p, v[0], p, v[0]))
+        for l in t.locs:
+            if l.name:
+                qs.append('E<> %s.%s' % (p, l.name))
+    return qs[:12]
+
+
 def gen_worker(chk, wi, nw):
     stats = common.Stats()
     orc = oracle.Oracle(os.path.join(chk.workdir, 'g%d' % wi), cpu_limit=30)
@@ -279,6 +295,23 @@ def gen_worker(chk, wi, nw):
         v = account(chk, stats, orc.request(steps_for(xml, 'xml-buffer')), xml, 'xml-buffer', cls + ['entry:xml'], sample)
         if v:
             return v
+        qs = member_queries(m) if applied == 'none' or rnd.random() < 0.3 else []
+        if qs:
+            from xml.sax.saxutils import escape
+            measures = [q[4:].split(' == ')[0] for q in qs if ' == ' in q][:3]
+            xml_p = xml.replace('</system>', escape('\nprogress { %s }\n' % ' '.join(x + ';' for x in measures)) + '</system>', 1) if measures else xml
+            st3 = [dict(entry='xml-buffer', builder='document', newxta=1, input=xml, dump='inv,shape,inv_after', actions='queries', queries='\n'.join(qs)),
+                   dict(entry='xml-buffer', builder='document', newxta=1, input=xml_p, dump='inv,shape'),
+                   dict(entry='xml-buffer', builder='builder-only', newxta=1, input=xml_p, dump='inv,shape')]
+            r3 = orc.request(st3)
+            if 'crash' in r3:
+                stats.extra['crashes_seen_(C01)'] += 1
+            else:
+                stats.case('%s|queries' % xml, nontrivial=True, classes=cls + ['entry:xml', 'after-member-queries'] + (['process-set-member'] if any('(' in q for q in qs) else []),
+                           sample={'mutation': applied, 'queries': qs[:4]})
+                for vv in verdict_of(r3):
+                    if not chk.is_known(vv[0]):
+                        return (vv[0], vv[1], {'steps': st3})
         if xta is not None:
             v = account(chk, stats, orc.request(steps_for(xta, 'xta-buffer')), xta, 'xta-buffer', cls + ['entry:xta'],
                         {'mutation': applied, 'xta_prefix': xta[:500]})
